@@ -70,3 +70,30 @@ func OverlayFromDir(overlay map[string][]byte, dir, repoDir, relPkg string, only
 	}
 	return nil
 }
+
+// CallSites returns, for every function of package pkgPath (including
+// anonymous functions) that statically calls a function whose name is
+// anchor, the set of static callee names.
+func (p *Program) CallSites(pkgPath, anchor string) map[string]map[string]bool {
+	out := map[string]map[string]bool{}
+	for fn := range ssautil.AllFunctions(p.Prog) {
+		if fn.Pkg == nil || fn.Pkg.Pkg.Path() != pkgPath {
+			// anonymous functions have Pkg set as well
+			continue
+		}
+		callees := map[string]bool{}
+		for _, b := range fn.Blocks {
+			for _, ins := range b.Instrs {
+				if c, ok := ins.(ssa.CallInstruction); ok {
+					if sc := c.Common().StaticCallee(); sc != nil {
+						callees[sc.Name()] = true
+					}
+				}
+			}
+		}
+		if callees[anchor] {
+			out[fn.String()] = callees
+		}
+	}
+	return out
+}
